@@ -241,7 +241,7 @@ def lean_input(ops, extras_per_op):
 
 def fields(out):
     d = {}
-    for t in out.split(" ")[3:]:
+    for t in out.split(" ")[2:]:
         if "=" in t:
             k, v = t.split("=", 1)
             d[k] = v
@@ -274,10 +274,10 @@ def py_oracle(ops, outs):
             connected = True
         elif t[0] == "send" and connected and o[:2] != ["=", "bad-op"]:
             submitted += unhx(t[1])
-        elif (t[0] == "w" and o[1] == "net") or (t[0] in ("rxz", "eof") and o[1] == "plain"):
+        elif t[0] in ("w", "rxz", "eof") and o[1] == "io":
             f = fields(out)
             is_w = t[0] == "w"
-            net_hex = o[2] if is_w else o[o.index("net") + 1]
+            net_hex = f["net"]
             calls = [] if f["calls"] == "-" else [tuple(int(x) for x in c.split(":")) for c in f["calls"].split(",")]
             answers = [] if (not is_w or t[1] == "-") else t[1].split(",")
             backpressure = any(a != off for off, a in calls)
@@ -302,10 +302,9 @@ def py_oracle(ops, outs):
                   and len(srv_plain) < int(f["acked"])):
                 fail(i, "not-flushed", "server can inflate %d of the %s bytes taken from the queue, the lower "
                      "transport accepted every write of this iteration" % (len(srv_plain), f["acked"]))
-            if is_w:
-                if was and not connected and not hard:
-                    fail(i, "spurious-disconnect", "disconnected although the lower transport reported no hard error")
-                continue
+            rets = [] if f["rets"] == "-" else [int(x) for x in f["rets"].split(",")]
+            if was and not connected and not hard and not (rets and rets[-1] <= 0):
+                fail(i, "spurious-disconnect", "disconnected although the lower transport reported no hard error")
             if t[0] == "rxz" and not peer_bad:
                 try:
                     expected += cli.decompress(unhx(t[1]))
@@ -313,15 +312,14 @@ def py_oracle(ops, outs):
                         peer_bad = True
                 except zlib.error:
                     peer_bad = True
-            delivered += unhx(o[2])
+            delivered += unhx(f["plain"])
             if not peer_bad:
-                rets = [] if f["rets"] == "-" else [int(x) for x in f["rets"].split(",")]
                 if not expected.startswith(delivered):
                     fail(i, "read-mismatch", "delivered plaintext is not what the server deflated")
                 elif was and not connected and t[0] == "rxz" and rets and rets[-1] <= 0:
                     fail(i, "spurious-eof", "a fragment of a healthy stream closed the connection (read returned %s)"
                          % f["rets"])
-                elif connected and len(delivered) < len(expected):
+                elif not is_w and connected and len(delivered) < len(expected):
                     if f.get("pend") == "1":
                         fail(i, "pending-ignored", "delivered %d of %d bytes; input waits in the decompression "
                              "buffer (pending=1) but the socket is drained" % (len(delivered), len(expected)))
@@ -355,19 +353,17 @@ def tags(case, outs):  # noqa: C901
         o = out.split(" ")
         if t[0] == "send":
             res.append("send:" + size_class(len(unhx(t[1]))))
-        elif t[0] == "w" and len(o) > 1 and o[1] == "net":
+        elif t[0] in ("w", "rxz", "eof") and len(o) > 1 and o[1] == "io":
             f = fields(out)
             calls = [] if f["calls"] == "-" else [tuple(int(x) for x in c.split(":")) for c in f["calls"].split(",")]
             shape = "".join(sorted(set("f" if a == off else "e" if a < 0 else "z" if a == 0 else "p"
                                        for off, a in calls))) or "-"
-            res.append("w:%s:n%s:%s:q%s" % (shape, size_class(len(calls)), f["st"], "0" if f["q"] == "0" else "+"))
-        elif t[0] in ("rxz", "eof") and len(o) > 1 and o[1] == "plain":
-            f = fields(out)
             rets = [] if f["rets"] == "-" else [int(x) for x in f["rets"].split(",")]
-            shape = "".join(sorted(set("0" if r == 0 else "-" if r < 0 else "F" if r == 4096 else "+"
-                                       for r in rets))) or "none"
+            rshape = "".join(sorted(set("0" if r == 0 else "-" if r < 0 else "F" if r == 4096 else "+"
+                                        for r in rets))) or "none"
             n = len(unhx(t[1])) if t[0] == "rxz" else 0
-            res.append("%s:%s:%s:%s" % (t[0], size_class(n), shape, f["st"]))
+            res.append("%s:%s:w%s:n%s:r%s:p%s:%s:q%s" % (t[0], size_class(n), shape, size_class(len(calls)), rshape,
+                                                        f["pend"], f["st"], "0" if f["q"] == "0" else "+"))
         else:
             res.append(t[0] + ":" + (o[1] if len(o) > 1 else "?"))
     return res
